@@ -367,8 +367,8 @@ def lean_files(idx=None, bbox=None, res=None, sites=None, scan=None, guard=None)
              + ", ".join(_ident("res_" + r["name"]) for r in res) + "]\n\n"
              "/-- the only set whose iteration order the anchored code observes is the whitelisted one (inside a `raise`) -/\n"
              "theorem orderSites_ok : orderSitesOf Generated.setSites = expectedOrderSites := by decide +kernel\n\n"
-             "/-- `validate_input` refuses exactly the inputs whose number of points differs from the expected one -/\n"
-             "theorem validateGuard_ok : Generated.validateGuard = expectedValidateGuard := by decide\n\n"
+             "-- (the guard of `validate_input` is no longer compared as text: the function is TRANSLATED from source and proved\n"
+             "--  equal to `validateInput` for all arguments, `GenProps.Src.validate_input_eq`)\n\n"
              "/-- no labelling function can look at a coordinate; each validates exactly the size of its table -/\n"
              "theorem labScan_ok : labScanOK Generated.labScan Generated.funcs = true := by decide +kernel\n\n"
              "/-- the labeller clause of the property for every index-based labeller the live module exports: wrong sizes\n"
@@ -453,7 +453,7 @@ def obligation_names(idx):
     for n, _, t in idx:
         out.append("MenpoModel.C15.GenProps.res_" + n)
     return out + ["MenpoModel.C15.GenProps." + x for x in
-                  ("all_wf", "funcs_all", "funcs_cls", "resolution_ok", "orderSites_ok", "validateGuard_ok", "labScan_ok", "live_labellers",
+                  ("all_wf", "funcs_all", "funcs_cls", "resolution_ok", "orderSites_ok", "labScan_ok", "live_labellers",
                    "live_labellers_masks", "all_sorted", "live_labellers_gather", "live_entry")]
 
 
